@@ -165,6 +165,7 @@ pub enum Policy {
     Replay(Vec<Code>),
 }
 
+#[derive(Clone)]
 pub struct Queries {
     pub norep: Vec<Action>,
     pub norep_codes: Vec<Code>,
@@ -392,12 +393,14 @@ pub struct PlayOpts {
     /// expand the full turn tree (all step sequences) at turn starts with this probability (per mille)
     pub tree_per_mille: u32,
     pub tree_node_budget: usize,
+    /// replay only: repeat a transposition-order level walk at the turn start reached after this many actions (count, depth)
+    pub replay_level_tree: Option<(usize, u32)>,
     /// probability (per mille) of choosing each setup placement uniformly (else "rabbits first" bias)
     pub setup_uniform: bool,
 }
 impl Default for PlayOpts {
     fn default() -> Self {
-        PlayOpts { max_turns: 200, max_actions: 4000, tree_per_mille: 0, tree_node_budget: 3000, setup_uniform: true }
+        PlayOpts { max_turns: 200, max_actions: 4000, tree_per_mille: 0, tree_node_budget: 3000, replay_level_tree: None, setup_uniform: true }
     }
 }
 
@@ -548,13 +551,30 @@ pub fn play(rec: &mut GameRecord, mut policy: Policy, opts: &PlayOpts, rng: &mut
         if sh.step == 0 && q.term.is_some() {
             break;
         }
+        if q.rep.is_empty() && sh.step > 0 {
+            sink.count("mid_turn_states_with_empty_offered_list");
+            if q.norep_codes.iter().all(|c| *c == PASS) {
+                sink.count("mid_turn_states_where_only_a_withheld_pass_remains");
+            }
+        }
         if q.rep.is_empty() || sh.turns >= opts.max_turns || sh.actions >= opts.max_actions {
             break;
         }
         if opts.tree_per_mille > 0 && sh.step == 0 && rng.below(1000) < opts.tree_per_mille as usize {
             let mut budget = opts.tree_node_budget;
             let mut sub = rec.clone();
-            walk(&g, &sh, &q, &mut sub, 4, &mut budget, rng, mon, sink, false);
+            if rng.chance(1, 2) {
+                walk(&g, &sh, &q, &mut sub, 4, &mut budget, rng, mon, sink, false);
+            } else {
+                walk_levels(&g, &sh, &q, &mut sub, 4, &mut budget, rng, mon, sink);
+            }
+        }
+        if let Some((at, depth)) = opts.replay_level_tree {
+            if at == rec.actions.len() {
+                let mut budget = usize::MAX;
+                let mut sub = rec.clone();
+                walk_levels(&g, &sh, &q, &mut sub, depth, &mut budget, rng, mon, sink);
+            }
         }
         let code = match choose(&mut policy, &mut script_pos, rng, &q, &sh) {
             Some(c) => c,
@@ -674,6 +694,121 @@ pub fn walk(g: &GameState, sh: &Shadow, q: &Queries, rec: &mut GameRecord, depth
     }
 }
 
+struct LevelNode {
+    g: GameState,
+    sh: Shadow,
+    q: Queries,
+    path: Vec<Code>,
+}
+
+/// The same turn tree as `walk`, but expanded level by level in TRANSPOSITION ORDER: the states of a
+/// level are sorted by the engine's own transposition hash, so that states reached by different step
+/// orders (equal hash, different earlier boards) are expanded back to back, and all `take_action` calls
+/// of a level are made before any successor is queried. Anything the engine remembers from the previous
+/// call (memo tables keyed by hash, thread-local hand-overs) is thereby offered its worst case.
+/// Findings carry `level_tree` in their record, and the replayer repeats the whole level walk.
+#[allow(clippy::too_many_arguments)]
+pub fn walk_levels(g: &GameState, sh: &Shadow, q: &Queries, rec: &mut GameRecord, depth: u32, budget: &mut usize, rng: &mut Rng, mon: &mut dyn Monitor, sink: &mut Sink) {
+    if depth == 0 || (sh.step == 0 && q.term.is_some()) {
+        return;
+    }
+    let base = rec.actions.len();
+    rec.level_tree = Some((base, depth));
+    let mut frontier: Vec<LevelNode> = vec![LevelNode { g: g.clone(), sh: sh.clone(), q: q.clone(), path: vec![] }];
+    for level in 0..depth {
+        if frontier.is_empty() {
+            break;
+        }
+        let mut keyed: Vec<(u64, LevelNode)> = frontier.into_iter().map(|n| (guard("transposition_hash", || n.g.transposition_hash()).unwrap_or(0), n)).collect();
+        keyed.sort_by(|a, b| (a.0, &a.1.path).cmp(&(b.0, &b.1.path)));
+        let mut adjacent_equal = 0u64;
+        for w in keyed.windows(2) {
+            if w[0].0 == w[1].0 {
+                adjacent_equal += 1;
+            }
+        }
+        sink.add("level_walk_adjacent_equal_hash_pairs", adjacent_equal);
+        let nodes: Vec<LevelNode> = keyed.into_iter().map(|x| x.1).collect();
+        // phase 1: every take_action of this level, back to back
+        let mut outs: Vec<(usize, Code, Result<StepOut, PanicInfo>)> = vec![];
+        for (i, n) in nodes.iter().enumerate() {
+            let mut order: Vec<Code> = n.q.pick.clone();
+            if *budget < order.len() * 4 {
+                rng.shuffle(&mut order);
+                order.truncate((*budget / 4).max(1).min(order.len()));
+            }
+            for code in order {
+                if *budget == 0 {
+                    break;
+                }
+                *budget -= 1;
+                outs.push((i, code, step(&n.g, &n.sh, code)));
+            }
+        }
+        sink.add("level_walk_transitions", outs.len() as u64);
+        // phase 2: monitors, queries on the successors, next frontier
+        let mut next: Vec<LevelNode> = vec![];
+        for (i, code, r) in outs {
+            let n = &nodes[i];
+            rec.actions.truncate(base);
+            rec.actions.extend_from_slice(&n.path);
+            rec.actions.push(code);
+            let out = match r {
+                Ok(o) => o,
+                Err(p) => {
+                    note_panic(rec, &p, mon, sink);
+                    continue;
+                }
+            };
+            if out.resynced {
+                sink.resyncs += 1;
+            }
+            {
+                let o = Obs { rec, g: &n.g, sh: &n.sh, norep: &n.q.norep, norep_codes: &n.q.norep_codes, rep: &n.q.rep, rep_codes: &n.q.rep_codes, term: n.q.term, linear: false };
+                let action = code_act(code);
+                let t = Trans {
+                    rec,
+                    before: &o,
+                    code,
+                    action: &action,
+                    after: &out.after,
+                    obs_board: out.obs_board,
+                    obs_gold: out.obs_gold,
+                    obs_step: out.obs_step,
+                    obs_moveno: out.obs_moveno,
+                    applied: out.applied.as_ref(),
+                    exp_board: out.exp_board,
+                    exp_gold: out.exp_gold,
+                    exp_step: out.exp_step,
+                    exp_moveno: out.exp_moveno,
+                    turn_ended: out.turn_ended,
+                    sh_after: &out.sh_after,
+                };
+                mon.on_transition(&t, sink);
+            }
+            match observe(&out.after) {
+                Ok(q2) => {
+                    {
+                        let o = Obs { rec, g: &out.after, sh: &out.sh_after, norep: &q2.norep, norep_codes: &q2.norep_codes, rep: &q2.rep, rep_codes: &q2.rep_codes, term: q2.term, linear: false };
+                        mon.on_state(&o, sink);
+                    }
+                    let ended = out.sh_after.step == 0;
+                    if !ended && level + 1 < depth {
+                        let mut path = n.path.clone();
+                        path.push(code);
+                        next.push(LevelNode { g: out.after, sh: out.sh_after, q: q2, path });
+                    }
+                }
+                Err(p) => note_panic(rec, &p, mon, sink),
+            }
+        }
+        frontier = next;
+    }
+    rec.actions.truncate(base);
+    rec.level_tree = None;
+    sink.count("level_walks");
+}
+
 /// Sweep entry: visit an injected turn-start state and its turn tree to `depth`.
 pub fn sweep_root(rec: &mut GameRecord, depth: u32, rng: &mut Rng, mon: &mut dyn Monitor, sink: &mut Sink) {
     let (board, gold, moveno) = match &rec.start {
@@ -691,7 +826,15 @@ pub fn sweep_root(rec: &mut GameRecord, depth: u32, rng: &mut Rng, mon: &mut dyn
     match observe(&g) {
         Ok(q) => {
             let mut budget = usize::MAX;
-            walk(&g, &sh, &q, rec, depth, &mut budget, rng, mon, sink, true);
+            if rec.index % 2 == 0 || rec.level_tree.is_some() {
+                walk(&g, &sh, &q, rec, depth, &mut budget, rng, mon, sink, true);
+            } else {
+                {
+                    let o = Obs { rec, g: &g, sh: &sh, norep: &q.norep, norep_codes: &q.norep_codes, rep: &q.rep, rep_codes: &q.rep_codes, term: q.term, linear: false };
+                    mon.on_state(&o, sink);
+                }
+                walk_levels(&g, &sh, &q, rec, depth, &mut budget, rng, mon, sink);
+            }
         }
         Err(p) => note_panic(rec, &p, mon, sink),
     }
